@@ -187,4 +187,18 @@ PLAN = {
             {"name": "window", "flavour": "native", "shards": 4, "shards_thorough": 16},
         ],
     },
+    "C12": {
+        "level": "exploration",
+        "rule": "registry leg: histories (5-64 steps) of update (incl. value-preserving gauge sets) / clock advance (0, timeout, timeout+-1, "
+                "2*timeout+3, random) / observe over 1-3 keys x 3 kinds incl. the same key under several kinds, all 8 kind masks, timeouts "
+                "1 ns - 1 s or none, against a per-(kind,key) idle state machine driven by a mock clock; after every observation the set of "
+                "dropped metrics and the registry contents (values) are compared. exporter leg: the same through "
+                "PrometheusBuilder::idle_timeout + verif_build_with_clock + render(), parsed by the strict parser. distinct = history hash; "
+                "non-trivial = a timeout is set and the mask covers some kind.",
+        "assumptions": ["an 'observation' is one pass of get_*_handles + should_store_*, as the exporters do"],
+        "legs": [
+            {"name": "registry", "flavour": "native", "shards": 4, "shards_thorough": 16},
+            {"name": "exporter", "flavour": "native", "shards": 4, "shards_thorough": 16},
+        ],
+    },
 }
